@@ -74,6 +74,14 @@ CHECKS = {
          "explicit-state BFS over histories of Head() calls, clock advances, deliveries and held trusted-head answers on the real Syncer, per-call and per-state oracle",
          "Stores {empty, fresh, stale, expired head (peers fresh / peers expired)}; events Head(), deliver next, advance {3s, 40s, 4000s}, answers of the held trusted-head request {newer, same, error, soft+header} and of the initialisation request {fresh tip, old, error}; depth 5 quick / 7 thorough. Per completed Head(): no request when recent, exactly one request carrying the subjective head when stale, re-initialisation only adopts non-expired heads; per state: at most one head request in flight (single flight) and results never decrease in completion order.",
          "Overlapping Head() callers are explored at event granularity (a second call while the first one's request is held).", "2.3 C19"),
+ "C12": ("E2-schedx", "model_checking",
+         "stateless DFS over thread schedules with iterative preemption bounding on the real store code (instrumented copy generated from the working tree, controlled scheduler on synctest quiescence)",
+         "Every synchronisation operation of the store package (mutex/rwmutex/once/waitgroup, atomics, channel send/recv/close/select, goroutine start) and every datastore operation is a scheduling point; all schedules with <= 1 preemption (quick; thorough <= 2, one more attempted) are enumerated for: reader vs contiguous append, reader vs gapped-then-filled append, two readers + canceller + writer, missing height below Height(), cancelled reader, (thorough) two readers vs out-of-order writers; batch sizes 1 and 64. Oracle per execution: the reader gets the appended header and never its deadline (a lost wake-up is a reader only released by virtual time), ErrNotFound / cancellation without time passing, no deadlock.",
+         "Unsynchronised accesses between two scheduling points are not interleaved; weak memory is not modelled; Go's own choice among select clauses becoming ready simultaneously while a thread is blocked is not owned.", "2.2 C12"),
+ "C17": ("E2-schedx", "model_checking",
+         "stateless DFS over thread schedules with iterative preemption bounding on the real store code (instrumented copy), per-execution oracle and comparison with the sequential result",
+         "Scenarios: two writers (gap then fill) + reader doing Head/Height/GetByHeight/Get rounds; append+Sync then read from another thread; tail-side DeleteRange racing with appends; (thorough) three out-of-order writers + reader; batch sizes 1, 2, 64; all schedules with <= 1 preemption (quick; thorough <= 2, one deeper attempted). Oracle: Head().Height() and Height() never decrease within a reader, Head's header is retrievable by height and by hash, synced headers are readable from any thread, final store equals the sequential execution and is gap-free.",
+         "Same scheduling-point granularity as C12; the randomised real-thread -race pass named in the statement is auxiliary (tools/racepass.sh), not the deciding step.", "2.2 C17"),
 }
 
 NOT_APPLICABLE = {}
@@ -123,6 +131,7 @@ def main():
             {"name": "E1-inputs", "path": "harness/pure", "serves_properties": ["C01", "C02"], "kind_free_text": "exhaustive input-product enumeration on the real functions vs reference oracle"},
             {"name": "E1-netx", "path": "harness/p2px", "serves_properties": ["C05", "C09", "C10", "C11", "C13", "C18"], "kind_free_text": "real Exchange/ExchangeServer/Subscriber over libp2p mocknet inside a synctest bubble; scripted peers keyed by (origin, attempt), release gates for arrival order, deadline-honouring stream decorator"},
             {"name": "E1-syncx", "path": "harness/syncx", "serves_properties": ["C03", "C07", "C15", "C16", "C19"], "kind_free_text": "real sync.Syncer + real store.Store in a synctest bubble with a scripted contract-abiding getter (calls held until answered), capturing subscriber and virtual clock; BFS over event histories"},
+            {"name": "E2-schedx", "path": "harness/vrtsrc + harness/cmd/instrument + harness/schedx", "serves_properties": ["C12", "C17"], "kind_free_text": "controlled scheduler (one runnable thread at a time, decisions at synctest quiescence), source-to-source instrumentation of the repository package through a build overlay, stateless DFS with preemption bounding sharded over single-threaded worker processes"},
             {"name": "E1-seqx", "path": "harness/vk/bfs.go + harness/storex", "serves_properties": ["C04", "C06", "C08", "C14"], "kind_free_text": "explicit-state BFS over operation histories on the real store (fresh instance + replay per successor, canonical state key), LogDS commit-log/fault-injecting datastore"},
         ],
         "checks": checks,
